@@ -585,11 +585,13 @@ func (e *Extractor) extractSuffixes(re *syntax.Regexp, depth int) *Seq {
 		}
 		// Direct literal
 		bytes := runeSliceToBytes(re.Rune)
+		complete := true
 		if len(bytes) > e.config.MaxLiteralLen {
 			// For suffix, take the LAST MaxLiteralLen bytes
 			bytes = bytes[len(bytes)-e.config.MaxLiteralLen:]
+			complete = false
 		}
-		return NewSeq(NewLiteral(bytes, true))
+		return NewSeq(NewLiteral(bytes, complete))
 
 	case syntax.OpConcat:
 		// Concatenation: take suffix from LAST sub-expression and extend with preceding literals
@@ -629,6 +631,13 @@ func (e *Extractor) extractSuffixes(re *syntax.Regexp, depth int) *Seq {
 		for i := lastIdx - 1; i >= 0; i-- {
 			sub := re.Sub[i]
 
+			// A suffix that does not cover its whole element (class too large,
+			// wildcard, truncation) cannot be extended to the left: whatever
+			// precedes the element is not adjacent to the literal.
+			if !suffixes.AllComplete() {
+				return suffixes
+			}
+
 			// Skip word boundaries (zero-width assertions)
 			if sub.Op == syntax.OpWordBoundary || sub.Op == syntax.OpNoWordBoundary {
 				continue
@@ -659,11 +668,13 @@ func (e *Extractor) extractSuffixes(re *syntax.Regexp, depth int) *Seq {
 				copy(newBytes, prefix)
 				copy(newBytes[len(prefix):], lit.Bytes)
 				// Truncate if too long
+				complete := lit.Complete
 				if len(newBytes) > e.config.MaxLiteralLen {
 					// For suffix, keep the last MaxLiteralLen bytes
 					newBytes = newBytes[len(newBytes)-e.config.MaxLiteralLen:]
+					complete = false
 				}
-				lits[j] = NewLiteral(newBytes, lit.Complete)
+				lits[j] = NewLiteral(newBytes, complete)
 			}
 			extended := NewSeq(lits...)
 			extended.partialCoverage = suffixes.partialCoverage
